@@ -209,6 +209,70 @@ func c16r2(c *an.Ctx) {
 	}
 	c.Floor("routeConn exits", 1, n)
 	_ = readCall
+	// the default route's connection replays the prefix first: io.MultiReader(bytes.NewReader(data), conn), and Read uses it
+	npc := c.Fn("drpcmigrate", "newPrefixConn")
+	okMR := false
+	an.Instrs(npc, func(in ssa.Instruction) {
+		call, ok := in.(*ssa.Call)
+		if !ok {
+			return
+		}
+		if obj := an.CalleeObj(call.Common()); obj == nil || obj.FullName() != "io.MultiReader" {
+			return
+		}
+		els := variadicArgs(call.Common().Args[0])
+		if len(els) == 2 {
+			first, second := an.Unwrap(els[0]), an.Unwrap(els[1])
+			// stores may be visited in any order: identify by shape
+			isPrefix := func(v ssa.Value) bool {
+				c2, ok := v.(*ssa.Call)
+				if !ok {
+					return false
+				}
+				o := an.CalleeObj(c2.Common())
+				return o != nil && o.FullName() == "bytes.NewReader" && c2.Common().Args[0] == ssa.Value(npc.Params[0])
+			}
+			isConn := func(v ssa.Value) bool { return v == ssa.Value(npc.Params[1]) }
+			if (isPrefix(first) && isConn(second)) || (isPrefix(second) && isConn(first)) {
+				okMR = orderOfVariadic(call.Common().Args[0], isPrefix)
+			}
+		}
+	})
+	c.Check(okMR, "newPrefixConn | reads replay the consumed prefix, then the connection", c.P.Pos(npc.Pos()), "", "the default route's connection does not yield the client's bytes from the first byte (prefix missing or after the payload)")
+	pr := c.Fn("drpcmigrate", "(*prefixConn).Read")
+	okRead2 := false
+	an.Instrs(pr, func(in ssa.Instruction) {
+		if call, ok := in.(*ssa.Call); ok && call.Common().IsInvoke() && call.Common().Method.Name() == "Read" {
+			if p := an.PathOf(call.Common().Value); p.Last() != nil && p.Last().Name() == "Reader" {
+				okRead2 = true
+			}
+		}
+	})
+	c.Check(okRead2, "(*prefixConn).Read | reads through the prefix-replaying reader", c.P.Pos(pr.Pos()), "", "prefixConn.Read bypasses the replaying reader: the consumed prefix is lost")
+}
+
+// orderOfVariadic reports whether the element at index 0 of the variadic array satisfies first.
+func orderOfVariadic(v ssa.Value, first func(ssa.Value) bool) bool {
+	sl, ok := v.(*ssa.Slice)
+	if !ok {
+		return false
+	}
+	al, ok := sl.X.(*ssa.Alloc)
+	if !ok {
+		return false
+	}
+	for _, r := range *al.Referrers() {
+		if ia, ok := r.(*ssa.IndexAddr); ok {
+			if k, isC := an.ConstInt(ia.Index); isC && k == 0 {
+				for _, r2 := range *ia.Referrers() {
+					if st, ok := r2.(*ssa.Store); ok {
+						return first(an.Unwrap(st.Val))
+					}
+				}
+			}
+		}
+	}
+	return false
 }
 
 func c16r3(c *an.Ctx) {
